@@ -224,6 +224,13 @@ func init() {
 	})
 	vf("vfWaitAll", func(in *Interp, th *Thread, fn *ssa.Function, a []Value) (Value, bool) {
 		// block the calling thread until every other thread is done or blocked forever
+		if in.raceCheck {
+			for _, t := range in.threads {
+				if t != th && t.done && t.vc != nil {
+					in.vcOf(th).join(t.vc)
+				}
+			}
+		}
 		for _, t := range in.threads {
 			if t != th && !t.done {
 				panic(blockSignal{why: "vfWaitAll", cond: func() bool {
@@ -507,16 +514,27 @@ func init() {
 
 	// atomics on plain integers
 	atomLoad := func(in *Interp, th *Thread, fn *ssa.Function, a []Value) (Value, bool) {
+		in.atomicAccess = true
+		defer func() { in.atomicAccess = false }()
+		in.hbAcquire(th, slotKey{agg: a[0].(Ptr).Base, idx: a[0].(Ptr).Idx})
 		v := in.load(a[0].(Ptr))
 		in.syncPoint(th, "atomic")
 		return v, true
 	}
 	atomStore := func(in *Interp, th *Thread, fn *ssa.Function, a []Value) (Value, bool) {
+		in.atomicAccess = true
+		defer func() { in.atomicAccess = false }()
+		in.hbAcquire(th, slotKey{agg: a[0].(Ptr).Base, idx: a[0].(Ptr).Idx})
+		defer in.hbRelease(th, slotKey{agg: a[0].(Ptr).Base, idx: a[0].(Ptr).Idx})
 		in.store(a[0].(Ptr), a[1])
 		in.syncPoint(th, "atomic")
 		return nil, true
 	}
 	atomAdd := func(in *Interp, th *Thread, fn *ssa.Function, a []Value) (Value, bool) {
+		in.atomicAccess = true
+		defer func() { in.atomicAccess = false }()
+		in.hbAcquire(th, slotKey{agg: a[0].(Ptr).Base, idx: a[0].(Ptr).Idx})
+		defer in.hbRelease(th, slotKey{agg: a[0].(Ptr).Base, idx: a[0].(Ptr).Idx})
 		p := a[0].(Ptr)
 		v := in.ts.Bin(OAdd, in.asTerm(in.load(p)), in.asTerm(a[1]))
 		in.store(p, v)
@@ -524,6 +542,10 @@ func init() {
 		return v, true
 	}
 	atomSwap := func(in *Interp, th *Thread, fn *ssa.Function, a []Value) (Value, bool) {
+		in.atomicAccess = true
+		defer func() { in.atomicAccess = false }()
+		in.hbAcquire(th, slotKey{agg: a[0].(Ptr).Base, idx: a[0].(Ptr).Idx})
+		defer in.hbRelease(th, slotKey{agg: a[0].(Ptr).Base, idx: a[0].(Ptr).Idx})
 		p := a[0].(Ptr)
 		old := in.load(p)
 		in.store(p, a[1])
@@ -531,6 +553,10 @@ func init() {
 		return old, true
 	}
 	atomCAS := func(in *Interp, th *Thread, fn *ssa.Function, a []Value) (Value, bool) {
+		in.atomicAccess = true
+		defer func() { in.atomicAccess = false }()
+		in.hbAcquire(th, slotKey{agg: a[0].(Ptr).Base, idx: a[0].(Ptr).Idx})
+		defer in.hbRelease(th, slotKey{agg: a[0].(Ptr).Base, idx: a[0].(Ptr).Idx})
 		p := a[0].(Ptr)
 		cur := in.load(p)
 		eq := in.valEq(cur, a[1])
